@@ -166,7 +166,32 @@ def gen(repo) -> str:
     if drop - {"caller"}:
         raise RegenError("%s: visitCallTag discards %r from callable_identifiers.declared" % (rel, sorted(drop)))
 
-    out = [HEADER % "mako/codegen.py (TOPLEVEL_DECLARED, RESERVED_NAMES, _Identifiers), mako/template.py (Template.reserved_names)",
+    # runtime.Context.__getitem__ / get: is "bound in the context" a membership test (`key in self._data`, dict.get with a
+    # default) or a test on the value (`self._data.get(key)` compared with None / truthiness)?
+    rel_r = "mako/runtime.py"
+    tr = parse(repo, rel_r)
+    ctx_cls = find_class(tr, "Context", rel_r)
+    gi = find_func(ctx_cls.body, "__getitem__", rel_r)
+    gi_src = ast.unparse(gi)
+    body = [n for n in gi.body if not (isinstance(n, ast.Expr) and isinstance(n.value, ast.Constant))]
+    if (len(body) == 1 and isinstance(body[0], ast.If) and isinstance(body[0].test, ast.Compare)
+            and len(body[0].test.ops) == 1 and isinstance(body[0].test.ops[0], ast.In)
+            and ast.unparse(body[0].test.comparators[0]) == "self._data"
+            and ast.unparse(body[0].body[0]) == "return self._data[key]"
+            and len(body[0].orelse) == 1 and ast.unparse(body[0].orelse[0]) == "return builtins.__dict__[key]"):
+        getitem_membership = True
+    elif "self._data.get(key)" in gi_src and ("is None" in gi_src or "if not " in gi_src or " or " in gi_src):
+        getitem_membership = False
+    else:
+        raise RegenError("%s: Context.__getitem__ is neither the membership form nor a value test: %s" % (rel_r, gi_src[:120]))
+    gt = find_func(ctx_cls.body, "get", rel_r)
+    rets = [n for n in ast.walk(gt) if isinstance(n, ast.Return)]
+    get_membership = len(rets) == 1 and ast.unparse(rets[0].value) == "self._data.get(key, builtins.__dict__.get(key, default))"
+    if not get_membership and not ("self._data.get(key)" in ast.unparse(gt)):
+        raise RegenError("%s: Context.get is not `self._data.get(key, builtins.__dict__.get(key, default))`: %s"
+                         % (rel_r, ast.unparse(gt)[:120]))
+
+    out = [HEADER % "mako/codegen.py (TOPLEVEL_DECLARED, RESERVED_NAMES, _Identifiers, _GenerateRenderMethod), mako/template.py (Template.reserved_names, render_context), mako/runtime.py (Context.__getitem__, Context.get)",
            "", "namespace MakoModel.Generated.Names", "",
            "/-- `codegen.TOPLEVEL_DECLARED` (sorted) -/",
            "def toplevelDeclared : List (List Char) := " + _names_list(toplevel),
@@ -187,5 +212,8 @@ def gen(repo) -> str:
            "def mlocalsUpdateMinusArgs : Bool := " + ("true" if ml_minus_args else "false"),
            "/-- `visitCallTag` removes `caller` from `callable_identifiers.declared` before the defs of the call are written -/",
            "def callDefsDropCaller : Bool := " + ("true" if drop else "false"),
+           "/-- `Context.__getitem__` / `Context.get` decide \"bound in the context\" by key membership, whatever the value -/",
+           "def ctxGetItemByMembership : Bool := " + ("true" if getitem_membership else "false"),
+           "def ctxGetByMembership : Bool := " + ("true" if get_membership else "false"),
            "", "end MakoModel.Generated.Names", ""]
     return "\n".join(out)
